@@ -1,169 +1,522 @@
-(* C10 — lemmas about the model (coq/C10/Model.v). *)
+(* C10 — lemmas about the model (coq/C10/Model.v): fronts, TTL round trip, read_sync layout.
+   The bit-level lemmas on split_sync are in Bits.v. *)
 From Coq Require Import ZArith List Bool Lia Sorted.
 From IBL.lib Require Import PyInt.
-From IBL.C10 Require Import Model.
+From IBL.C10 Require Import Model Bits.
 Import ListNotations.
 Open Scope Z_scope.
 
 (* ------------------------------------------------------------------ *)
-(* split_sync: bit level                                               *)
+(* fronts / rises / falls on one trace                                 *)
 (* ------------------------------------------------------------------ *)
 
-Lemma to_int16_mod v : to_int16 v mod 65536 = v mod 65536.
+Definition at_ (x : list Z) (i : Z) : Z := nth (Z.to_nat i) x 0.
+
+Lemma diff_length l : length (diff l) = (length l - 1)%nat.
 Proof.
-  unfold to_int16. rewrite Zminus_mod_idemp_l. f_equal. lia.
+  induction l as [|a [|b t] IH]; cbn [diff length] in *; try reflexivity. lia.
 Qed.
 
-Lemma to_int16_range v : -32768 <= to_int16 v < 32768.
+Lemma nth_diff l : forall i, (S i < length l)%nat -> nth i (diff l) 0 = nth (S i) l 0 - nth i l 0.
 Proof.
-  unfold to_int16. pose proof (Z.mod_pos_bound (v + 32768) 65536 ltac:(lia)). lia.
+  induction l as [|a [|b t] IH]; intros i Hi; cbn [length] in Hi; try lia.
+  destruct i as [|i].
+  - reflexivity.
+  - change (diff (a :: b :: t)) with ((b - a) :: diff (b :: t)).
+    cbn [nth]. rewrite IH by (cbn [length]; lia). reflexivity.
 Qed.
 
-Lemma to_int16_id v : -32768 <= v < 32768 -> to_int16 v = v.
+Lemma diff_cons2 a b t : diff (a :: b :: t) = (b - a) :: diff (b :: t).
+Proof. reflexivity. Qed.
+
+Lemma diff_opp l : diff (map Z.opp l) = map Z.opp (diff l).
 Proof.
-  intros H. unfold to_int16. rewrite Z.mod_small by lia. lia.
+  induction l as [|a t IH]; [reflexivity|]. destruct t as [|b t]; [reflexivity|].
+  change (map Z.opp (a :: b :: t)) with (- a :: - b :: map Z.opp t).
+  rewrite !diff_cons2. change (- b :: map Z.opp t) with (map Z.opp (b :: t)). rewrite IH.
+  cbn [map]. f_equal. lia.
 Qed.
 
-Lemma to_int16_periodic v m : to_int16 (v + 65536 * m) = to_int16 v.
-Proof.
-  unfold to_int16. replace (v + 65536 * m + 32768) with (v + 32768 + m * 65536) by lia.
-  now rewrite Z_mod_plus_full.
-Qed.
-
-Lemma div_mod2_bit b k : 0 <= k -> (b / 2 ^ k) mod 2 = Z.b2z (Z.testbit b k).
-Proof. intros Hk. symmetry. now apply Z.testbit_spec'. Qed.
-
-(* the 16 columns, written out *)
-Lemma split_word_unfold v :
-  let u := v mod 65536 in
-  let lo := u mod 256 in let hi := u / 256 in
-  split_word v =
-  [ (lo / 2^0) mod 2; (lo / 2^1) mod 2; (lo / 2^2) mod 2; (lo / 2^3) mod 2;
-    (lo / 2^4) mod 2; (lo / 2^5) mod 2; (lo / 2^6) mod 2; (lo / 2^7) mod 2;
-    (hi / 2^0) mod 2; (hi / 2^1) mod 2; (hi / 2^2) mod 2; (hi / 2^3) mod 2;
-    (hi / 2^4) mod 2; (hi / 2^5) mod 2; (hi / 2^6) mod 2; (hi / 2^7) mod 2 ].
-Proof.
-  intros u lo hi. unfold split_word, u8_view. rewrite to_int16_mod.
-  fold u. fold lo. fold hi.
-  generalize lo hi. intros a b.
-  unfold unpack8, roll. cbn [flat_map map app length Nat.sub skipn firstn rev].
-  reflexivity.
-Qed.
-
-Lemma testbit_lo v k : 0 <= k < 8 ->
-  Z.testbit ((v mod 65536) mod 256) k = Z.testbit v k.
-Proof.
-  intros Hk. change 256 with (2 ^ 8). change 65536 with (2 ^ 16).
-  rewrite Z.mod_pow2_bits_low by lia. rewrite Z.mod_pow2_bits_low by lia. reflexivity.
-Qed.
-
-Lemma testbit_hi v k : 0 <= k < 8 ->
-  Z.testbit ((v mod 65536) / 256) k = Z.testbit v (k + 8).
-Proof.
-  intros Hk. change 256 with (2 ^ 8). change 65536 with (2 ^ 16).
-  rewrite Z.div_pow2_bits by lia. rewrite Z.mod_pow2_bits_low by lia. reflexivity.
-Qed.
-
-(* General bit-level statement: for EVERY integer v (the int16 conversion
-   keeps the low 16 bits; Z.testbit on negative numbers is two's complement),
-   column k of the decoded row is bit k of v. *)
-Lemma split_word_bits v k : 0 <= k < 16 ->
-  nth (Z.to_nat k) (split_word v) 0 = Z.b2z (Z.testbit v k).
-Proof.
-  intros Hk. rewrite split_word_unfold. cbv zeta.
-  set (n := Z.to_nat k). assert (Hn : (n < 16)%nat) by lia.
-  assert (Hkn : k = Z.of_nat n) by lia. rewrite Hkn. clearbody n. clear Hkn Hk.
-  do 16 (destruct n as [|n];
-    [ cbn [nth Z.of_nat Pos.of_succ_nat Pos.succ];
-      rewrite div_mod2_bit by lia;
-      first [ rewrite testbit_lo by lia; reflexivity
-            | rewrite testbit_hi by lia; reflexivity ] | ]).
-  lia.
-Qed.
-
-Lemma split_word_length v : length (split_word v) = 16%nat.
-Proof. rewrite split_word_unfold. reflexivity. Qed.
-
-Lemma split_word_binary v x : In x (split_word v) -> x = 0 \/ x = 1.
-Proof.
-  rewrite split_word_unfold. cbv zeta. intros H.
-  repeat (destruct H as [<- | H];
-          [ match goal with |- ?a mod 2 = 0 \/ _ =>
-              pose proof (Z.mod_pos_bound a 2 ltac:(lia)); lia end | ]).
-  destruct H.
-Qed.
-
-(* int16 <-> uint16: a word and any integer congruent to it modulo 2^16
-   (in particular the signed and the unsigned reading of the same 16 bits)
-   decode to the same row. *)
-Lemma split_word_periodic v m : split_word (v + 65536 * m) = split_word v.
-Proof. unfold split_word. now rewrite to_int16_periodic. Qed.
-
-Lemma split_word_signed_unsigned v : split_word (v mod 65536) = split_word v.
-Proof.
-  rewrite (Z.div_mod v 65536) at 2 by lia.
-  replace (65536 * (v / 65536) + v mod 65536) with (v mod 65536 + 65536 * (v / 65536)) by lia.
-  now rewrite split_word_periodic.
-Qed.
-
-(* exhaustive evaluation over the 65536 words, by the kernel *)
-Definition all_words : list Z :=
-  flat_map (fun hi => map (fun lo => 256 * hi + lo) (zrange 256)) (zrange 256).
-
-Definition bits16 (w : Z) : list Z := map (fun k => Z.b2z (Z.testbit w k)) (zrange 16).
-
-Fixpoint zl_eqb (a b : list Z) : bool :=
-  match a, b with
-  | [], [] => true
-  | x :: a', y :: b' => (x =? y) && zl_eqb a' b'
-  | _, _ => false
+(* where with values *)
+Fixpoint wv (i : Z) (f : Z -> bool) (l : list Z) : list (Z * Z) :=
+  match l with
+  | [] => []
+  | v :: t => if f v then (i, v) :: wv (i + 1) f t else wv (i + 1) f t
   end.
 
-Lemma zl_eqb_eq a b : zl_eqb a b = true -> a = b.
+Lemma wv_fst i f l : map fst (wv i f l) = where_from i f l.
 Proof.
-  revert b. induction a as [|x a IH]; intros [|y b] H; cbn in H; try discriminate; auto.
-  apply andb_true_iff in H. destruct H as [H1 H2]. apply Z.eqb_eq in H1. subst. f_equal. auto.
+  revert i. induction l as [|v t IH]; intros i; cbn [wv where_from]; [reflexivity|].
+  destruct (f v); cbn [map fst]; now rewrite IH.
 Qed.
 
-(* one evaluation of split_word per word *)
-Definition word_ok (w : Z) : bool := zl_eqb (split_word w) (bits16 w).
-
-Lemma all_words_ok : forallb word_ok all_words = true.
-Proof. vm_compute. reflexivity. Qed.
-
-Lemma in_all_words w : 0 <= w < 65536 -> In w all_words.
+Lemma in_wv f l : forall i j v, In (j, v) (wv i f l) <->
+  i <= j < i + Z.of_nat (length l) /\ v = nth (Z.to_nat (j - i)) l 0 /\ f v = true.
 Proof.
-  intros Hw. unfold all_words. apply in_flat_map. exists (w / 256). split.
-  - apply in_zrange. change (Z.of_nat 256) with 256.
-    pose proof (Z.div_mod w 256 ltac:(lia)). pose proof (Z.mod_pos_bound w 256 ltac:(lia)).
-    split; [apply Z.div_pos; lia | apply Z.div_lt_upper_bound; lia].
-  - apply in_map_iff. exists (w mod 256). split.
-    + pose proof (Z.div_mod w 256 ltac:(lia)). lia.
-    + apply in_zrange. change (Z.of_nat 256) with 256. apply Z.mod_pos_bound. lia.
+  induction l as [|a t IH]; intros i j v; cbn [wv length].
+  - split; [intros []|]. lia.
+  - assert (Hstep : In (j, v) (wv (i + 1) f t) <->
+              i + 1 <= j < i + Z.of_nat (S (length t)) /\ v = nth (Z.to_nat (j - i)) (a :: t) 0 /\ f v = true).
+    { rewrite IH. split.
+      - intros (H1 & H2 & H3). split; [lia|]. split; [|exact H3].
+        replace (Z.to_nat (j - i)) with (S (Z.to_nat (j - (i + 1)))) by lia. exact H2.
+      - intros (H1 & H2 & H3). split; [lia|]. split; [|exact H3].
+        replace (Z.to_nat (j - i)) with (S (Z.to_nat (j - (i + 1)))) in H2 by lia. exact H2. }
+    destruct (f a) eqn:Fa.
+    + cbn [In]. rewrite Hstep. split.
+      * intros [H | H].
+        -- inversion H; subst. replace (j - j) with 0 by lia. cbn. split; [lia|]. auto.
+        -- destruct H as (H1 & H2 & H3). split; [lia|]. auto.
+      * intros (H1 & H2 & H3). destruct (Z.eq_dec j i) as [->|Hne].
+        -- left. replace (i - i) with 0 in H2 by lia. cbn in H2. now subst.
+        -- right. split; [lia|]. auto.
+    + rewrite Hstep. split.
+      * intros (H1 & H2 & H3). split; [lia|]. auto.
+      * intros (H1 & H2 & H3). destruct (Z.eq_dec j i) as [->|Hne].
+        -- replace (i - i) with 0 in H2 by lia. cbn in H2. subst. congruence.
+        -- split; [lia|]. auto.
 Qed.
 
-Lemma nth_bits16 w k : 0 <= k < 16 -> nth (Z.to_nat k) (bits16 w) 0 = Z.b2z (Z.testbit w k).
+Lemma wv_lower f l : forall i p, In p (wv i f l) -> i <= fst p.
 Proof.
-  intros Hk. set (n := Z.to_nat k). assert (Hn : (n < 16)%nat) by lia.
-  assert (Hkn : k = Z.of_nat n) by lia. rewrite Hkn. clearbody n. clear Hkn Hk.
-  do 16 (destruct n as [|n]; [ reflexivity | ]). lia.
+  intros i [j v] H. apply in_wv in H. cbn. lia.
 Qed.
 
-Lemma split_word_bits_exhaustive w k : 0 <= w < 65536 -> 0 <= k < 16 ->
-  nth (Z.to_nat k) (split_word w) 0 = Z.b2z (Z.testbit w k).
+Lemma wv_sorted f l : forall i, StronglySorted Z.lt (map fst (wv i f l)).
 Proof.
-  intros Hw Hk. pose proof all_words_ok as H. rewrite forallb_forall in H.
-  specialize (H w (in_all_words w Hw)). unfold word_ok in H.
-  apply zl_eqb_eq in H. rewrite H. apply nth_bits16; exact Hk.
+  induction l as [|a t IH]; intros i; cbn [wv]; [constructor|].
+  destruct (f a); [|apply IH].
+  cbn [map fst]. constructor; [apply IH|].
+  apply Forall_forall. intros j Hj. apply in_map_iff in Hj. destruct Hj as [p [<- Hp]].
+  apply wv_lower in Hp. lia.
 Qed.
 
-(* the signed (int16) reading of the same 16 bits, from the exhaustive table *)
-Lemma split_word_bits_exhaustive_signed s k : -32768 <= s < 32768 -> 0 <= k < 16 ->
-  nth (Z.to_nat k) (split_word s) 0 = Z.b2z (Z.testbit (s mod 65536) k) /\
-  Z.testbit (s mod 65536) k = Z.testbit s k.
+Lemma wv_snd f l : forall i,
+  map snd (wv i f l) = map (fun j => nth (Z.to_nat (j - i)) l 0) (where_from i f l).
 Proof.
-  intros Hs Hk. split.
-  - rewrite <- split_word_signed_unsigned. apply split_word_bits_exhaustive; [|exact Hk].
-    apply Z.mod_pos_bound. lia.
-  - change 65536 with (2 ^ 16). apply Z.mod_pow2_bits_low. lia.
+  intros i. rewrite <- wv_fst. rewrite map_map. apply map_ext_in.
+  intros [j v] H. apply in_wv in H. cbn. tauto.
+Qed.
+
+Lemma combine_map_fst_snd {A B C} (g : A -> C) (L : list (A * B)) :
+  combine (map g (map fst L)) (map snd L) = map (fun p => (g (fst p), snd p)) L.
+Proof. induction L as [|[a b] L IH]; cbn; [reflexivity|]. now rewrite IH. Qed.
+
+(* the (index, polarity) pairs fronts returns *)
+Definition front_pairs (step : Z) (x : list Z) : list (Z * Z) :=
+  combine (fst (fronts1 step x)) (snd (fronts1 step x)).
+
+Lemma fronts1_wv step x :
+  fst (fronts1 step x) = map (fun i => i + 1) (map fst (wv 0 (fun v => step <=? Z.abs v) (diff x))) /\
+  snd (fronts1 step x) = map snd (wv 0 (fun v => step <=? Z.abs v) (diff x)).
+Proof.
+  unfold fronts1. cbn [fst snd]. rewrite wv_fst. split; [reflexivity|].
+  rewrite wv_snd. unfold gather. apply map_ext. intros j. now rewrite Z.sub_0_r.
+Qed.
+
+Lemma front_pairs_wv step x :
+  front_pairs step x = map (fun p => (fst p + 1, snd p)) (wv 0 (fun v => step <=? Z.abs v) (diff x)).
+Proof.
+  unfold front_pairs. destruct (fronts1_wv step x) as [-> ->].
+  apply (combine_map_fst_snd (fun i => i + 1)).
+Qed.
+
+Lemma fronts1_lengths step x : length (snd (fronts1 step x)) = length (fst (fronts1 step x)).
+Proof. destruct (fronts1_wv step x) as [-> ->]. now rewrite !map_length. Qed.
+
+Lemma diff_at x j : 0 <= j -> j + 1 < Z.of_nat (length x) ->
+  nth (Z.to_nat j) (diff x) 0 = at_ x (j + 1) - at_ x j.
+Proof.
+  intros H0 H1. unfold at_. rewrite nth_diff by lia.
+  replace (Z.to_nat (j + 1)) with (S (Z.to_nat j)) by lia. reflexivity.
+Qed.
+
+(* pairs: exactly the positions i >= 1 where the jump is at least `step`, with the jump *)
+Lemma in_front_pairs step x i s :
+  In (i, s) (front_pairs step x) <->
+  1 <= i < Z.of_nat (length x) /\ s = at_ x i - at_ x (i - 1) /\ step <= Z.abs s.
+Proof.
+  rewrite front_pairs_wv, in_map_iff. split.
+  - intros [[j v] [Heq H]]. cbn in Heq. inversion Heq; subst. apply in_wv in H.
+    rewrite diff_length in H. destruct H as (H1 & H2 & H3).
+    rewrite Z.sub_0_r in H2. rewrite diff_at in H2 by lia.
+    replace (j + 1 - 1) with j by lia. apply Z.leb_le in H3. split; [lia|]. split; [exact H2|exact H3].
+  - intros (H1 & H2 & H3). exists (i - 1, s). cbn. split; [f_equal; lia|].
+    apply in_wv. rewrite diff_length. split; [lia|]. split.
+    + rewrite Z.sub_0_r, diff_at by lia. replace (i - 1 + 1) with i by lia. exact H2.
+    + apply Z.leb_le. exact H3.
+Qed.
+
+Lemma in_combine_fst {A B} (l : list A) (l' : list B) a : length l = length l' ->
+  In a l -> exists b, In (a, b) (combine l l').
+Proof.
+  revert l'. induction l as [|x l IH]; intros [|y l'] Hl Hin; cbn in *; try lia; try tauto.
+  destruct Hin as [->|Hin]; [exists y; auto|].
+  destruct (IH l' ltac:(lia) Hin) as [b Hb]. exists b. auto.
+Qed.
+
+Lemma in_fronts1_ind step x i :
+  In i (fst (fronts1 step x)) <->
+  1 <= i < Z.of_nat (length x) /\ step <= Z.abs (at_ x i - at_ x (i - 1)).
+Proof.
+  split.
+  - intros H. destruct (in_combine_fst _ (snd (fronts1 step x)) i (eq_sym (fronts1_lengths step x)) H) as [s Hs].
+    apply in_front_pairs in Hs. destruct Hs as (H1 & -> & H3). auto.
+  - intros [H1 H2].
+    assert (Hp : In (i, at_ x i - at_ x (i - 1)) (front_pairs step x)) by (apply in_front_pairs; auto).
+    apply in_combine_l in Hp. exact Hp.
+Qed.
+
+Lemma sorted_map_succ l : StronglySorted Z.lt l -> StronglySorted Z.lt (map (fun i => i + 1) l).
+Proof.
+  induction 1 as [|a l Hs IH Hf]; cbn; constructor; auto.
+  apply Forall_forall. intros y Hy. apply in_map_iff in Hy. destruct Hy as [z [<- Hz]].
+  rewrite Forall_forall in Hf. specialize (Hf z Hz). lia.
+Qed.
+
+Lemma fronts1_sorted step x : StronglySorted Z.lt (fst (fronts1 step x)).
+Proof. destruct (fronts1_wv step x) as [-> _]. apply sorted_map_succ, wv_sorted. Qed.
+
+(* polarity of the j-th front *)
+Lemma fronts1_sign step x j : (j < length (fst (fronts1 step x)))%nat ->
+  let i := nth j (fst (fronts1 step x)) 0 in
+  nth j (snd (fronts1 step x)) 0 = at_ x i - at_ x (i - 1).
+Proof.
+  intros Hj i.
+  assert (Hp : In (i, nth j (snd (fronts1 step x)) 0) (front_pairs step x)).
+  { unfold front_pairs. subst i.
+    rewrite <- (combine_nth _ _ j 0 0 (eq_sym (fronts1_lengths step x))).
+    apply nth_In. rewrite combine_length, fronts1_lengths. lia. }
+  apply in_front_pairs in Hp. tauto.
+Qed.
+
+(* rises / falls *)
+Lemma in_where_from f l i j : In j (where_from i f l) <->
+  i <= j < i + Z.of_nat (length l) /\ f (nth (Z.to_nat (j - i)) l 0) = true.
+Proof.
+  rewrite <- wv_fst, in_map_iff. split.
+  - intros [[j' v] [Hj H]]. cbn in Hj. subst j'. apply in_wv in H. destruct H as (H1 & -> & H3). auto.
+  - intros [H1 H2]. exists (j, nth (Z.to_nat (j - i)) l 0). split; [reflexivity|]. apply in_wv. auto.
+Qed.
+
+Lemma in_rises_raw s x i :
+  In i (map (fun i => i + 1) (where_from 0 (fun v => s <=? v) (diff x))) <->
+  1 <= i < Z.of_nat (length x) /\ s <= at_ x i - at_ x (i - 1).
+Proof.
+  rewrite in_map_iff. split.
+  - intros [j [<- H]]. apply in_where_from in H. rewrite diff_length, Z.sub_0_r in H.
+    destruct H as [H1 H2]. rewrite diff_at in H2 by lia. apply Z.leb_le in H2.
+    replace (j + 1 - 1) with j by lia. split; [lia|exact H2].
+  - intros [H1 H2]. exists (i - 1). split; [lia|]. apply in_where_from.
+    rewrite diff_length, Z.sub_0_r. split; [lia|]. rewrite diff_at by lia. apply Z.leb_le.
+    replace (i - 1 + 1) with i by lia. exact H2.
+Qed.
+
+Lemma in_rises1 s x i :
+  In i (rises1 s false x) <-> 1 <= i < Z.of_nat (length x) /\ s <= at_ x i - at_ x (i - 1).
+Proof. unfold rises1. apply in_rises_raw. Qed.
+
+Lemma at_map g x i : 0 <= i < Z.of_nat (length x) -> g 0 = 0 \/ True -> at_ (map g x) i = g (at_ x i).
+Proof.
+  intros Hi _. unfold at_. rewrite (nth_indep _ 0 (g 0)) by (rewrite map_length; lia).
+  apply map_nth.
+Qed.
+
+Lemma in_falls1 s x i :
+  In i (falls1 s false x) <-> 1 <= i < Z.of_nat (length x) /\ at_ x i - at_ x (i - 1) <= s.
+Proof.
+  unfold falls1. rewrite in_rises1, map_length. split.
+  - intros [H1 H2]. rewrite !at_map in H2 by (auto; lia). split; [lia|lia].
+  - intros [H1 H2]. split; [lia|]. rewrite !at_map by (auto; lia). lia.
+Qed.
+
+Lemma in_rises1_analog s x i :
+  In i (rises1 s true x) <-> 1 <= i < Z.of_nat (length x) /\ s < at_ x i /\ ~ s < at_ x (i - 1).
+Proof.
+  unfold rises1. rewrite in_rises_raw. unfold binarise. rewrite map_length. split.
+  - intros [H1 H2]. rewrite !at_map in H2 by (auto; lia).
+    destruct (s <? at_ x i) eqn:E1; destruct (s <? at_ x (i - 1)) eqn:E2;
+      try apply Z.ltb_lt in E1; try apply Z.ltb_ge in E1;
+      try apply Z.ltb_lt in E2; try apply Z.ltb_ge in E2; lia.
+  - intros (H1 & H2 & H3). split; [lia|]. rewrite !at_map by (auto; lia).
+    destruct (s <? at_ x i) eqn:E1; destruct (s <? at_ x (i - 1)) eqn:E2;
+      try apply Z.ltb_lt in E1; try apply Z.ltb_ge in E1;
+      try apply Z.ltb_lt in E2; try apply Z.ltb_ge in E2; lia.
+Qed.
+
+Lemma in_falls1_analog s x i :
+  In i (falls1 s true x) <-> 1 <= i < Z.of_nat (length x) /\ at_ x i < s /\ ~ at_ x (i - 1) < s.
+Proof.
+  unfold falls1. rewrite in_rises1_analog, map_length. split.
+  - intros (H1 & H2 & H3). rewrite !at_map in * by (auto; lia). lia.
+  - intros (H1 & H2 & H3). rewrite !at_map by (auto; lia). lia.
+Qed.
+
+Lemma rises1_sorted s a x : StronglySorted Z.lt (rises1 s a x).
+Proof. unfold rises1. apply sorted_map_succ. rewrite <- wv_fst. apply wv_sorted. Qed.
+
+Lemma falls1_sorted s a x : StronglySorted Z.lt (falls1 s a x).
+Proof. unfold falls1. apply rises1_sorted. Qed.
+
+(* rises / falls are the positive / negative halves of fronts (step > 0) *)
+Lemma wv_filter_pos s l : 0 < s -> forall i,
+  filter (fun p => 0 <? snd p) (wv i (fun v => s <=? Z.abs v) l) = wv i (fun v => s <=? v) l.
+Proof.
+  intros Hs. induction l as [|v t IH]; intros i; cbn [wv]; [reflexivity|].
+  destruct (s <=? Z.abs v) eqn:E1; destruct (s <=? v) eqn:E2;
+    try apply Z.leb_le in E1; try apply Z.leb_gt in E1; try apply Z.leb_le in E2; try apply Z.leb_gt in E2;
+    cbn [filter snd]; try lia.
+  - destruct (0 <? v) eqn:E3; [|apply Z.ltb_ge in E3; lia]. now rewrite IH.
+  - destruct (0 <? v) eqn:E3; [apply Z.ltb_lt in E3; lia|]. apply IH.
+  - apply IH.
+Qed.
+
+Lemma wv_filter_neg s l : 0 < s -> forall i,
+  filter (fun p => snd p <? 0) (wv i (fun v => s <=? Z.abs v) l) = wv i (fun v => v <=? - s) l.
+Proof.
+  intros Hs. induction l as [|v t IH]; intros i; cbn [wv]; [reflexivity|].
+  destruct (s <=? Z.abs v) eqn:E1; destruct (v <=? - s) eqn:E2;
+    try apply Z.leb_le in E1; try apply Z.leb_gt in E1; try apply Z.leb_le in E2; try apply Z.leb_gt in E2;
+    cbn [filter snd]; try lia.
+  - destruct (v <? 0) eqn:E3; [|apply Z.ltb_ge in E3; lia]. now rewrite IH.
+  - destruct (v <? 0) eqn:E3; [apply Z.ltb_lt in E3; lia|]. apply IH.
+  - apply IH.
+Qed.
+
+Lemma filter_map_comm {A B} (g : A -> B) (p : B -> bool) (l : list A) :
+  filter p (map g l) = map g (filter (fun a => p (g a)) l).
+Proof. induction l as [|a l IH]; cbn; [reflexivity|]. destruct (p (g a)); cbn; now rewrite IH. Qed.
+
+Lemma wv_ext f g l : (forall v, f v = g v) -> forall i, wv i f l = wv i g l.
+Proof. intros H. induction l as [|v t IH]; intros i; cbn; [reflexivity|]. rewrite H, IH. reflexivity. Qed.
+
+Lemma rises_is_positive_half s x : 0 < s ->
+  rises1 s false x = map fst (filter (fun p => 0 <? snd p) (front_pairs s x)).
+Proof.
+  intros Hs. rewrite front_pairs_wv, filter_map_comm. cbn [snd].
+  rewrite (wv_filter_pos s _ Hs). rewrite map_map. cbn [fst].
+  unfold rises1. rewrite <- wv_fst, map_map. reflexivity.
+Qed.
+
+Lemma falls_is_negative_half s x : 0 < s ->
+  falls1 (- s) false x = map fst (filter (fun p => snd p <? 0) (front_pairs s x)).
+Proof.
+  intros Hs. rewrite front_pairs_wv, filter_map_comm. cbn [snd].
+  rewrite (wv_filter_neg s _ Hs). rewrite map_map. cbn [fst].
+  unfold falls1, rises1. rewrite Z.opp_involutive, diff_opp. rewrite <- wv_fst, map_map.
+  generalize (diff x) 0. clear. intros l.
+  induction l as [|v t IH]; intros i; cbn [map wv]; [reflexivity|].
+  replace (s <=? - v) with (v <=? - s).
+  - destruct (v <=? - s); cbn [map fst]; now rewrite IH.
+  - destruct (v <=? - s) eqn:E1; destruct (s <=? - v) eqn:E2; try reflexivity;
+      try apply Z.leb_le in E1; try apply Z.leb_gt in E1; try apply Z.leb_le in E2; try apply Z.leb_gt in E2; lia.
+Qed.
+
+(* two strictly increasing lists with the same members are equal *)
+Lemma sorted_ext (a b : list Z) : StronglySorted Z.lt a -> StronglySorted Z.lt b ->
+  (forall x, In x a <-> In x b) -> a = b.
+Proof.
+  revert b. induction a as [|x a IH]; intros b Ha Hb H.
+  - destruct b as [|y b]; [reflexivity|]. exfalso. apply (H y). left; reflexivity.
+  - destruct b as [|y b]; [exfalso; apply (H x); left; reflexivity|].
+    inversion Ha as [|? ? Ha' Fa]; subst. inversion Hb as [|? ? Hb' Fb]; subst.
+    rewrite Forall_forall in Fa, Fb.
+    assert (x = y).
+    { destruct (proj1 (H x) (or_introl eq_refl)) as [->|Hx]; [reflexivity|].
+      destruct (proj2 (H y) (or_introl eq_refl)) as [->|Hy]; [reflexivity|].
+      specialize (Fa y Hy). specialize (Fb x Hx). lia. }
+    subst y. f_equal. apply IH; auto. intros z. split; intros Hz.
+    + destruct (proj1 (H z) (or_intror Hz)) as [->|]; [|assumption]. specialize (Fa z Hz). lia.
+    + destruct (proj2 (H z) (or_intror Hz)) as [->|]; [|assumption]. specialize (Fb z Hz). lia.
+Qed.
+
+(* ------------------------------------------------------------------ *)
+(* writing TTL trains into words and reading them back                 *)
+(* ------------------------------------------------------------------ *)
+
+Definition binary (l : list Z) : Prop := forall b, In b l -> b = 0 \/ b = 1.
+
+Lemma encode_bits_testbit l : binary l -> forall k, 0 <= k ->
+  Z.b2z (Z.testbit (encode_bits l) k) = nth (Z.to_nat k) l 0.
+Proof.
+  induction l as [|b t IH]; intros Hb k Hk.
+  - cbn [encode_bits]. rewrite Z.testbit_0_l. destruct (Z.to_nat k); reflexivity.
+  - cbn [encode_bits].
+    assert (Hbt : binary t) by (intros c Hc; apply Hb; right; exact Hc).
+    assert (Hb0 : exists bb, b = Z.b2z bb).
+    { destruct (Hb b (or_introl eq_refl)) as [->| ->]; [exists false|exists true]; reflexivity. }
+    destruct Hb0 as [bb ->].
+    replace (Z.b2z bb + 2 * encode_bits t) with (2 * encode_bits t + Z.b2z bb) by lia.
+    destruct (Z.eq_dec k 0) as [->|Hne].
+    + rewrite Z.testbit_0_r. reflexivity.
+    + replace k with (Z.succ (k - 1)) at 1 by lia. rewrite Z.testbit_succ_r by lia.
+      rewrite IH by (auto; lia).
+      replace (Z.to_nat k) with (S (Z.to_nat (k - 1))) by lia. reflexivity.
+Qed.
+
+Lemma testbit_to_int16 v k : 0 <= k < 16 -> Z.testbit (to_int16 v) k = Z.testbit v k.
+Proof.
+  intros Hk. rewrite <- (Z.mod_pow2_bits_low (to_int16 v) 16 k) by lia.
+  change (2 ^ 16) with 65536. rewrite to_int16_mod. change 65536 with (2 ^ 16).
+  apply Z.mod_pow2_bits_low. lia.
+Qed.
+
+(* decoding the word that encodes 16 line levels gives the levels back *)
+Lemma decode_encode levels : length levels = 16%nat -> binary levels ->
+  split_word (encode_word levels) = levels.
+Proof.
+  intros Hl Hb. apply (nth_ext _ _ 0 0).
+  - now rewrite split_word_length.
+  - intros n Hn. rewrite split_word_length in Hn.
+    replace n with (Z.to_nat (Z.of_nat n)) by lia.
+    rewrite split_word_bits by lia. unfold encode_word.
+    rewrite testbit_to_int16 by lia. apply encode_bits_testbit; [exact Hb|lia].
+Qed.
+
+Lemma encode_bits_range l : binary l -> 0 <= encode_bits l < 2 ^ Z.of_nat (length l).
+Proof.
+  induction l as [|b t IH]; intros Hb.
+  - cbn. lia.
+  - assert (Hbt : binary t) by (intros c Hc; apply Hb; right; exact Hc).
+    specialize (IH Hbt). cbn [encode_bits length].
+    rewrite Nat2Z.inj_succ, Z.pow_succ_r by lia.
+    destruct (Hb b (or_introl eq_refl)) as [->| ->]; lia.
+Qed.
+
+Lemma encode_word_int16 l : -32768 <= encode_word l < 32768.
+Proof. apply to_int16_range. Qed.
+
+Lemma nth_zrange n i : (i < n)%nat -> nth i (zrange n) 0 = Z.of_nat i.
+Proof.
+  intros Hi. unfold zrange. rewrite (nth_indep _ 0 (Z.of_nat 0)) by (rewrite map_length, seq_length; lia).
+  rewrite map_nth, seq_nth by lia. reflexivity.
+Qed.
+
+Lemma at_train g ns i : 0 <= i < Z.of_nat ns -> at_ (map g (zrange ns)) i = g i.
+Proof.
+  intros Hi. unfold at_. rewrite (nth_indep _ 0 (g 0)) by (rewrite map_length, zrange_length; lia).
+  rewrite map_nth, nth_zrange by lia. f_equal. lia.
+Qed.
+
+Lemma sorted_lt_NoDup l : StronglySorted Z.lt l -> NoDup l.
+Proof.
+  induction 1 as [|a l Hs IH Hf]; constructor; auto.
+  intros Hin. rewrite Forall_forall in Hf. specialize (Hf a Hin). lia.
+Qed.
+
+Lemma count_le_step t evs : NoDup evs ->
+  (In t evs -> count_le t evs = count_le (t - 1) evs + 1) /\
+  (~ In t evs -> count_le t evs = count_le (t - 1) evs).
+Proof.
+  unfold count_le. induction 1 as [|e evs Hnin Hnd IH]; [cbn; tauto|].
+  cbn [filter]. destruct IH as [IH1 IH2].
+  destruct (Z.eq_dec e t) as [->|Hne].
+  - rewrite Z.leb_refl. replace (t <=? t - 1) with false by (symmetry; apply Z.leb_gt; lia).
+    split; [intros _|intros Hc; exfalso; apply Hc; left; reflexivity].
+    cbn [length]. rewrite Nat2Z.inj_succ. specialize (IH2 Hnin). lia.
+  - assert (Heq : (e <=? t) = (e <=? t - 1)).
+    { destruct (e <=? t) eqn:E1; destruct (e <=? t - 1) eqn:E2; try reflexivity;
+        try apply Z.leb_le in E1; try apply Z.leb_gt in E1; try apply Z.leb_le in E2; try apply Z.leb_gt in E2; lia. }
+    rewrite Heq. split.
+    + intros [Hc|Hin]; [congruence|]. specialize (IH1 Hin).
+      destruct (e <=? t - 1); cbn [length]; rewrite ?Nat2Z.inj_succ; lia.
+    + intros Hnin'. assert (Hn : ~ In t evs) by (intros Hc; apply Hnin'; right; exact Hc).
+      specialize (IH2 Hn). destruct (e <=? t - 1); cbn [length]; rewrite ?Nat2Z.inj_succ; lia.
+Qed.
+
+Lemma level_binary init evs t : level init evs t = 0 \/ level init evs t = 1.
+Proof. unfold level. pose proof (Z.mod_pos_bound (init + count_le t evs) 2 ltac:(lia)). lia. Qed.
+
+Lemma level_toggle init evs t : NoDup evs -> In t evs ->
+  level init evs t = 1 - level init evs (t - 1).
+Proof.
+  intros Hnd Hin. unfold level. destruct (count_le_step t evs Hnd) as [H _]. rewrite (H Hin).
+  replace (init + (count_le (t - 1) evs + 1)) with (init + count_le (t - 1) evs + 1) by lia.
+  generalize (init + count_le (t - 1) evs). intros a.
+  pose proof (Z.div_mod a 2 ltac:(lia)). pose proof (Z.mod_pos_bound a 2 ltac:(lia)).
+  pose proof (Z.div_mod (a + 1) 2 ltac:(lia)). pose proof (Z.mod_pos_bound (a + 1) 2 ltac:(lia)). lia.
+Qed.
+
+Lemma level_keep init evs t : NoDup evs -> ~ In t evs ->
+  level init evs t = level init evs (t - 1).
+Proof.
+  intros Hnd Hin. unfold level. destruct (count_le_step t evs Hnd) as [_ H]. now rewrite (H Hin).
+Qed.
+
+(* fronts on a rendered line: exactly the event times, each with the polarity
+   of the transition *)
+Lemma fronts_of_train init evs ns :
+  StronglySorted Z.lt evs -> (forall e, In e evs -> 1 <= e < Z.of_nat ns) ->
+  let L := map (level init evs) (zrange ns) in
+  fst (fronts1 1 L) = evs /\
+  length (snd (fronts1 1 L)) = length evs /\
+  forall j, (j < length evs)%nat ->
+    let e := nth j evs 0 in
+    nth j (snd (fronts1 1 L)) 0 = 1 - 2 * level init evs (e - 1) /\
+    level init evs e = 1 - level init evs (e - 1).
+Proof.
+  intros Hs Hr L. pose proof (sorted_lt_NoDup evs Hs) as Hnd.
+  assert (HL : length L = ns) by (unfold L; now rewrite map_length, zrange_length).
+  assert (Hind : fst (fronts1 1 L) = evs).
+  { apply sorted_ext; [apply fronts1_sorted|exact Hs|]. intros i. rewrite in_fronts1_ind, HL. split.
+    - intros [H1 H2]. unfold L in H2. rewrite !at_train in H2 by lia.
+      destruct (in_dec Z.eq_dec i evs) as [Hin|Hnin]; [exact Hin|].
+      rewrite (level_keep init evs i Hnd Hnin) in H2. lia.
+    - intros Hin. specialize (Hr i Hin). split; [lia|]. unfold L. rewrite !at_train by lia.
+      rewrite (level_toggle init evs i Hnd Hin).
+      destruct (level_binary init evs (i - 1)) as [->| ->]; cbn; lia. }
+  split; [exact Hind|]. split; [rewrite fronts1_lengths, Hind; reflexivity|].
+  intros j Hj e.
+  assert (Hin : In e evs) by (apply nth_In; exact Hj).
+  pose proof (Hr e Hin) as He.
+  split; [|apply level_toggle; auto].
+  pose proof (fronts1_sign 1 L j) as Hsg. rewrite Hind in Hsg. specialize (Hsg Hj). cbv zeta in Hsg.
+  fold e in Hsg. rewrite Hsg. unfold L. rewrite !at_train by lia.
+  rewrite (level_toggle init evs e Hnd Hin). lia.
+Qed.
+
+Lemma render_row_ok lines t :
+  binary (map (fun l : Z * list Z => level (fst l) (snd l) t) lines).
+Proof.
+  intros b Hb. apply in_map_iff in Hb. destruct Hb as [l [<- _]]. apply level_binary.
+Qed.
+
+Lemma column_roundtrip ns lines k : length lines = 16%nat -> (k < 16)%nat ->
+  column k (split_sync (map encode_word (render ns lines))) =
+  map (level (fst (nth k lines (0, []))) (snd (nth k lines (0, [])))) (zrange ns).
+Proof.
+  intros Hl Hk. unfold column, split_sync, render. rewrite !map_map. apply map_ext. intros t.
+  rewrite decode_encode; [|now rewrite map_length|apply render_row_ok].
+  rewrite (nth_indep _ 0 ((fun l : Z * list Z => level (fst l) (snd l) t) (0, [])))
+    by (rewrite map_length; lia).
+  exact (map_nth (fun l : Z * list Z => level (fst l) (snd l) t) lines (0, []) k).
+Qed.
+
+(* End to end. *)
+Lemma ttl_end_to_end ns lines k init evs :
+  length lines = 16%nat -> (k < 16)%nat -> nth k lines (0, []) = (init, evs) ->
+  StronglySorted Z.lt evs -> (forall e, In e evs -> 1 <= e < Z.of_nat ns) ->
+  fst (ttl_roundtrip ns lines k) = evs /\
+  length (snd (ttl_roundtrip ns lines k)) = length evs /\
+  forall j, (j < length evs)%nat ->
+    let e := nth j evs 0 in
+    nth j (snd (ttl_roundtrip ns lines k)) 0 = 1 - 2 * level init evs (e - 1) /\
+    level init evs e = 1 - level init evs (e - 1).
+Proof.
+  intros Hl Hk Hnth Hs Hr. unfold ttl_roundtrip. rewrite column_roundtrip by assumption.
+  rewrite Hnth. cbn [fst snd]. apply fronts_of_train; assumption.
+Qed.
+
+(* the words written are a faithful image of the levels: decoding any of them
+   gives the 16 levels of that sample *)
+Lemma words_decode ns lines t : length lines = 16%nat -> (t < ns)%nat ->
+  nth t (split_sync (map encode_word (render ns lines))) [] =
+  map (fun l : Z * list Z => level (fst l) (snd l) (Z.of_nat t)) lines.
+Proof.
+  intros Hl Ht. unfold split_sync, render. rewrite !map_map.
+  set (g := fun x => split_word (encode_word
+     (map (fun l : Z * list Z => level (fst l) (snd l) x) lines))).
+  rewrite (nth_indep _ [] (g 0)) by (rewrite map_length, zrange_length; lia).
+  rewrite (map_nth g), nth_zrange by lia. unfold g.
+  apply decode_encode; [now rewrite map_length|apply render_row_ok].
 Qed.
